@@ -7,13 +7,15 @@ TECH = "deterministic simulation with fault injection: seeded schedule/fault sea
 PIPE_NOTE = ("Trusted: the simulator shims (dst/sched.py, dst/shims.py, dst/simfs.py) model threads, locks, conditions, "
              "futures, clock and file operations faithfully; the independent numpy oracle (dst/plugins.py); harness "
              "plugin kinds stand for real plugins. Pre-emption at synchronisation points, futures, sleeps and every "
-             "SimFS operation only. Process pools are not simulated in this check.")
+             "SimFS operation only. Process pools (allow_multiprocess variants) are a stub: tasks run on simulator "
+             "threads behind a pickle round trip, so real inter-process parallelism is not exercised.")
 CHECKS = {
     "C01": dict(
         category="exploration", design_ref="DESIGN.md §5 C01",
         text=("Seeded search over generated plugin graphs (row-wise, filter, same-kind merge, multi-output, loop, "
-              "overlap-window, down-chunking, exhaust), independent law-abiding chunkings per source (empty and "
-              "zero-duration chunks), processor / max_workers / lazy / capacity / rechunk / chunk-size swarm and "
+              "overlap-window, down-chunking, exhaust, real CutPlugin and MergeOnlyPlugin subclasses), independent "
+              "law-abiding chunkings per source (empty and zero-duration chunks), processor / max_workers / lazy / "
+              "capacity / rechunk / chunk-size / multiprocessing-stub swarm and "
               "pre-stored subsets in unrelated chunkings; the whole Context.get_iter call runs for real on an "
               "in-memory file system under a seeded thread schedule. Oracle: rows equal an independent whole-run "
               "numpy evaluation, chunks tile the run and contain their rows, no hang / lost wake-up / exception, "
